@@ -18,6 +18,9 @@ mixed step(int i);
 
 mixed r_cb(mixed x, int i) { return step(i); }
 int r_sort(mixed a, mixed b, int i) { step(i); return 0; }
+// a sort whose compare callback runs (and catches) a failing sort of its own
+int ns_bad(mixed a, mixed b) { error("inner compare fails\n"); return 0; }
+int ns_outer(mixed a, mixed b) { catch(sort_array(({ 2, 1 }), "ns_bad", this_object())); return a - b; }
 int endless() { int n; while (1) n++; return n; }
 int deep(int n) { return deep(n + 1) + 1; }
 
@@ -100,7 +103,7 @@ void set_shape(string s) { shape = explode(s, ","); }
 void probe() {
   mixed e1, e2, e3, e4;
   object o;
-  int x, chain, dt;
+  int x, chain, dt, ns;
   // guards kept by load_object() and destruct() - tested before anything in the probe raises an error (errors reset them):
   // an unrelated object can still be destructed, and a chain of loads exactly as deep as the limit still loads
   e4 = catch(o = load_object("/obj/pd"));
@@ -111,5 +114,8 @@ void probe() {
   for (x = 1; x <= 8; x++) { o = find_object("/obj/pl" + x); if (o) catch(destruct(o)); }
   e1 = catch(x = to_int((mixed)({ })));
   e2 = catch(throw("p"));
-  vlog("\"e\":\"Probe\",\"c1\":" + (stringp(e1) ? 1 : 0) + ",\"c2\":" + jq(e2) + ",\"sum\":" + (sizeof(filter_array(({ 1, 2, 3 }), (: $1 > 1 :))) + strlen("abc")) + ",\"chain\":" + chain + ",\"dt\":" + dt + "," + ctx());
+  // an efun's static callback pointer survives a failing nested use: the outer sort still sorts
+  e3 = catch(o = 0, e4 = sort_array(({ 3, 1, 2 }), "ns_outer", this_object()));
+  ns = (!e3 && arrayp(e4) && e4[0] == 1 && e4[1] == 2 && e4[2] == 3) ? 1 : 0;
+  vlog("\"e\":\"Probe\",\"c1\":" + (stringp(e1) ? 1 : 0) + ",\"c2\":" + jq(e2) + ",\"sum\":" + (sizeof(filter_array(({ 1, 2, 3 }), (: $1 > 1 :))) + strlen("abc")) + ",\"chain\":" + chain + ",\"dt\":" + dt + ",\"ns\":" + ns + "," + ctx());
 }
